@@ -72,7 +72,9 @@ func genConfig(rng *rand.Rand) *genesis.GenesisConfig {
 		users[i] = rAddr(rng)
 		bal := map[types.ZenonTokenStandard]*big.Int{}
 		for _, z := range tokens {
-			if rng.Intn(4) != 0 {
+			// CheckGenesis refuses a declared token that nobody holds ("declared but not given at all"): the first user
+			// holds every token, so that a configuration called consistent here is one the validators accept
+			if i == 0 || rng.Intn(4) != 0 {
 				bal[z] = amt(rng)
 			}
 		}
